@@ -294,6 +294,16 @@ func paramStorm(run *kit.Run, forward bool) {
 						check(cc)
 						cc.Close()
 					}
+				} else if i%11 == 5 {
+					// the same lookup through a read-only transaction
+					_ = f.View(func(t *fox.Txn) error {
+						if rte, cc, _ := t.Lookup(nil, rq); rte != nil {
+							check(cc)
+							cc.Close()
+						}
+						_, _ = t.Reverse(rq.Method, rq.Host, rq.URL.Path)
+						return nil
+					})
 				} else if i%7 == 3 {
 					// "find the first route that matches": the consumer leaves the iterator's loop after the first result
 					for _, rte := range f.Iter().Reverse(func(y func(string) bool) { _ = y("POST") && y("GET") }, rq.Host, rq.URL.Path) {
